@@ -29,11 +29,14 @@ TB = [
 ]
 ASSUME = [
     "connector: values assigned are Python ints (Length); int(value) truncation of non-integral floats is outside the model",
-    "connector theorems are about assignments that do not raise; an assignment refused by range validation is modelled exactly "
-    "(partial writes stay) and its non-atomicity is proved as C17_conn_set_failure_not_atomic_refuted",
+    "connector theorems are about assignments that do not raise (C17_conn_history_total: none raises within half the ST_Coordinate "
+    "range); an assignment refused by range validation is modelled exactly (partial writes stay) and its non-atomicity is proved as "
+    "C17_conn_set_failure_not_atomic_refuted / _swaps_refuted; the oracle reports it under the signature conn-set-raises-partial",
     "groups: members are added through add_shape / add_textbox / add_picture / add_connector / add_group_shape() / "
     "build_freeform().convert_to_shape(); add_chart and add_ole_object are not exercised (same _recalculate_extents call in the source); "
     "changing the position of an existing member (not an addition) is outside the property",
+    "groups: every add_* method recalculates the receiving group and its ancestors (add_group_shape() and convert_to_shape() since "
+    "their repair); should either stop doing so the oracle reports group-stale-after-add-group-shape / group-stale-after-freeform",
     "groups: the model's Leaf carries only the xfrm numbers; every member kind reads its extents from the same BaseShapeElement.x/y/cx/cy",
     "freeform: an int scale is modelled exactly in Z; a float scale is modelled exactly as binary64 (see trusted base) for finite "
     "scales; nan / inf scales and vertices are not generated; subnormal products are modelled with 53-bit precision, which gives "
@@ -391,11 +394,21 @@ def oracle_conn(ck, case, out, obs):
                                  {"entry_point": "Connector.begin_x/begin_y/end_x/end_y setter", "input": list(case),
                                   "impl_outcome": out})
             else:
-                if tuple(r[:4]) != tuple(prev[:4]):
-                    ck.violation("conn-set-raises-partial",
-                                 "connector with begin/end %r: assigning %s=%d raises %s yet leaves begin/end %r (an end point "
-                                 "that was not assigned moved: the setter's earlier attribute writes stay applied)" % (
-                                     prev[:4], k, z, st, r[:4]),
+                half = COORD_HI // 2
+                if all(abs(t) <= half for t in tuple(prev[:4]) + (z,)) and prev[6] >= 0 and prev[7] >= 0:
+                    # C17_conn_history_total: nothing can be refused on such values
+                    ck.violation("conn-set-raises-in-range",
+                                 "connector with begin/end %r: assigning %s=%d raises %s although every coordinate is within "
+                                 "half the ST_Coordinate range" % (prev[:4], k, z, st),
+                                 {"entry_point": "Connector.begin_x/begin_y/end_x/end_y setter", "input": list(case),
+                                  "impl_outcome": out})
+                elif tuple(r[:4]) != tuple(prev[:4]):
+                    # a setter call that raises after it has written part of its attribute assignments
+                    sig = "conn-set-raises-partial" if st == "err:Value" else "conn-set-raises-partial-" + st[4:].lower()
+                    ck.violation(sig,
+                                 "connector with begin/end %r: assigning %s=%d raises %s (a value outside the ST_Coordinate / "
+                                 "ST_PositiveCoordinate range) yet leaves begin/end %r: the setter's earlier attribute writes stay "
+                                 "applied, so an end point that was not assigned moved" % (prev[:4], k, z, st, r[:4]),
                                  {"entry_point": "Connector.begin_x/begin_y/end_x/end_y setter", "input": list(case),
                                   "impl_outcome": out})
 
@@ -573,16 +586,15 @@ def gen_grp(tier, rng):
             return rng.randint(1, 30)
         return rng.randint(1, 4 * 10 ** 6)
 
-    def history(nops, with_norecalc, extreme):
+    def history(nops, extreme):
         groups = [()]          # paths of groups; () is the slide
         count = {(): 0}
         ops = []
         for _ in range(nops):
             # prefer deep groups so that depth 4 is reached
             path = max(rng.sample(groups, min(len(groups), 2)), key=len) if rng.random() < 0.6 else rng.choice(groups)
-            kinds = ["sp", "tb", "pic", "cxn", "grp", "grp"] + (["ff"] if with_norecalc else [])
-            kind = rng.choice(kinds)
-            if kind == "grp" and (len(path) >= maxdepth or (not with_norecalc and count[path] > 0 and path != ())):
+            kind = rng.choice(("sp", "tb", "pic", "cxn", "ff", "grp", "grp"))
+            if kind == "grp" and len(path) >= maxdepth:
                 kind = "sp"
             ptxt = ".".join(map(str, path)) if path else "-"
             if kind == "grp":
@@ -611,8 +623,7 @@ def gen_grp(tier, rng):
     cases.append(("grp",) + tuple(chain))
     n = 900 if tier == "quick" else 5000
     for i in range(n):
-        # a third of the histories only add groups where the code recalculates (empty groups get a member before any sibling)
-        cases.append(history(rng.randint(2, 22), with_norecalc=(i % 3 != 0), extreme=(i % 10 == 9)))
+        cases.append(history(rng.randint(2, 22), extreme=(i % 10 == 9)))
     return cases
 
 
@@ -824,3 +835,26 @@ def replay(rec):
     for sig, what in ck.v:
         print("oracle: [%s] %s" % (sig, what))
     return 1 if (ck.v or io != mo) else 0
+
+
+CLAIM = {
+    "tech": "Coq proof over a Gallina model of the connector setters, group extent recalculation and the freeform builder (all histories, "
+            "all tree depths, binary64 scale arithmetic) + extracted-model correspondence on real shapes + independent oracle",
+    "text": "20 theorems closed under the global context. Connector: add_connector reads back its two points; an end-point assignment "
+            "that does not raise changes exactly that coordinate, keeps the other three readings and width/height >= 0, for every prior "
+            "state; any history of assignments refines the abstract segment {bx,by,ex,ey} (fold over operations, cross-overs included) "
+            "and no assignment raises within half the coordinate range. Groups: after any addition at any path of a shape tree of any "
+            "depth every group on the path equals the least bounding box of its members (off, ext, chOff, chExt), everything off the "
+            "path is unchanged, and recursive consistency is invariant over every history of additions of every kind from the empty "
+            "slide. Freeform: extents are the min/max of the rounded pen points, position = origin + scaled min, size = scaled "
+            "(max-min) (exact for an int scale, within 1/2 + 2^-51 relative for a float scale, one exact half-even rounding when both "
+            "operands fit 53 bits), every path point lies in [0,w]x[0,h]. The model is tied to connector.py, groupshape.py, shapetree.py "
+            "and freeform.py by ~14.5k (quick) / ~147k (thorough) histories run on real python-pptx shapes and on the extracted model "
+            "(raw x/y/cx/cy/flip, chOff/chExt, a:path w/h and a:pt compared), plus a mutated malformed stream.",
+    "note": "An assignment refused by ST_Coordinate / ST_PositiveCoordinate validation is not atomic (earlier attribute writes stay; "
+            "proved as C17_conn_set_failure_*_refuted, reported as conn-set-raises-partial). Float scales are modelled as IEEE binary64 "
+            "(fl53 transcribed, tied to CPython by correspondence only); nan/inf scales, non-integral connector values, add_chart / "
+            "add_ole_object inside groups and moving an existing member are outside; add_picture with a zero size is driven as an auto "
+            "shape; after a ValueError inside a group addition the history stops (partial group state not modelled).",
+    "ref": "6/C17",
+}
